@@ -18,7 +18,7 @@ import (
 // C19 — wsjson moves one JSON value per text message and rejects invalid JSON.
 
 func init() {
-	register(&Prop{ID: "C19", Run: runC19, Quick: 12000, Thorough: 100000, Level: "exploration"})
+	register(&Prop{ID: "C19", Run: runC19, Quick: 12000, Thorough: 1500000, Level: "exploration"})
 }
 
 var c19Strings = []string{"", "a", "héllo wörld", "日本語テキスト", "quote\"back\\slash", "tab\tnew\nline", "  ", "<>&", "emoji 😀", "null", "0"}
